@@ -59,6 +59,8 @@ func (p *C10) Gen(seed uint64, i int, tier string) *scen.Scenario {
 	nextID := 1
 	nextW := 1
 	attrN := 0
+	sharedN := 0
+	var sharedList *scen.Op
 	levels := []int{model.Panic, model.Error, model.Warn, model.Info, model.Debug, model.Trace, model.Always, model.Off}
 	setting := func(allowSkip bool) scen.Op {
 		kinds := []string{"level", "level", "json", "color", "utc", "timefmt", "attrs", "attrs1", "args", "ctxkeys", "writer", "errwriter"}
@@ -76,6 +78,14 @@ func (p *C10) Gen(seed uint64, i int, tier string) *scen.Scenario {
 		case "attrs", "attrs1":
 			attrN++
 			o.Args = []scen.Arg{{K: "attr", Key: fmt.Sprintf("k%d", attrN), Items: []scen.Arg{{K: "i", I: int64(attrN)}}}}
+			if o.Kind == "attrs1" && r.Chance(1, 2) {
+				// one caller-owned Attrs value given to several loggers
+				if sharedList == nil || r.Chance(1, 4) {
+					sharedN++
+					sharedList = &scen.Op{J: int64(sharedN), Args: o.Args}
+				}
+				o.J, o.Args = sharedList.J, sharedList.Args
+			}
 		case "args":
 			attrN++
 			o.Args = []scen.Arg{{K: "key", S: fmt.Sprintf("k%d", attrN)}, {K: "i", I: int64(attrN)}}
@@ -92,6 +102,7 @@ func (p *C10) Gen(seed uint64, i int, tier string) *scen.Scenario {
 	}
 	var allNames []string
 	nOps := r.Range(4, 40)
+	_ = sharedN
 	for k := 0; k < nOps; k++ {
 		l := scen.Pick(r, loggers)
 		switch c := r.Intn(100); {
@@ -638,7 +649,13 @@ func (p *C10) checkProbe(sc *scen.Scenario, run *orch.Run, op *scen.Op, o *opObs
 			continue
 		}
 		for _, k := range other.attrs {
-			if has(k) {
+			mine := false
+			for _, own := range m.attrs {
+				if own == k {
+					mine = true // the same caller-owned list was given to both loggers
+				}
+			}
+			if !mine && has(k) {
 				add("C10.probe.attrs", "foreign", "probe on logger %d carries attribute %s that was given to logger %d only", op.L, k, id)
 			}
 		}
